@@ -103,6 +103,44 @@ theorem sortNodes_contains (a : Nat) (e : Edge) : (sortNodes e).contains a = e.c
   have := (sortNodes_perm e).mem_iff (a := a)
   cases h : e.contains a <;> simp_all
 
+theorem insertSorted_sorted (a : Nat) (l : List Nat) (h : l.Pairwise (· ≤ ·)) :
+    (insertSorted a l).Pairwise (· ≤ ·) := by
+  induction l with
+  | nil => simp [insertSorted]
+  | cons b bs ih =>
+    obtain ⟨hb, hbs⟩ := List.pairwise_cons.mp h
+    simp only [insertSorted]
+    split
+    · rename_i hab
+      refine List.pairwise_cons.mpr ⟨?_, h⟩
+      intro x hx
+      rcases List.mem_cons.mp hx with rfl | hx
+      · exact hab
+      · exact Nat.le_trans hab (hb x hx)
+    · rename_i hab
+      refine List.pairwise_cons.mpr ⟨?_, ih hbs⟩
+      intro x hx
+      rcases List.mem_cons.mp ((insertSorted_perm a bs).mem_iff.mp hx) with rfl | hx
+      · omega
+      · exact hb x hx
+
+theorem sortNodes_sorted (e : Edge) : (sortNodes e).Pairwise (· ≤ ·) := by
+  induction e with
+  | nil => simp [sortNodes]
+  | cons a t ih => exact insertSorted_sorted a _ ih
+
+/-- `sorted` of a node set is the strictly increasing tuple: the canonical form of the set -/
+theorem sortNodes_strict {e : Edge} (h : e.Nodup) : (sortNodes e).Pairwise (· < ·) :=
+  List.Pairwise.imp₂ (fun _ _ hle hne => Nat.lt_of_le_of_ne hle hne) (sortNodes_sorted e) (sortNodes_nodup h)
+
+/-- two strictly increasing tuples with the same members are the same tuple -/
+theorem strict_ext {l1 l2 : List Nat} (h1 : l1.Pairwise (· < ·)) (h2 : l2.Pairwise (· < ·))
+    (hm : ∀ x, x ∈ l1 ↔ x ∈ l2) : l1 = l2 := by
+  have n1 : l1.Nodup := h1.imp (fun h => Nat.ne_of_lt h)
+  have n2 : l2.Nodup := h2.imp (fun h => Nat.ne_of_lt h)
+  exact List.Perm.eq_of_pairwise (fun a b _ _ hab hba => absurd hab (Nat.lt_asymm hba)) h1 h2
+    ((List.perm_ext_iff_of_nodup n1 n2).mpr hm)
+
 /-! ## `__pairwise_reshuffle` -/
 
 /-- the dealing loop places every element (there is room for all of them); each result is its
@@ -510,6 +548,7 @@ theorem dedup_eq_of_length {α} [BEq α] (l : List α) (h : (dedup l).length = l
 structure Preserved (detailed : Bool) (es out : List Edge) : Prop where
   distinct : out.Nodup
   edgesNodup : ∀ e ∈ out, e.Nodup
+  sorted : ∀ e ∈ out, e.Pairwise (· < ·)
   sizesSub : ∀ e ∈ out, e.length ∈ sizes es
   len_le : out.length ≤ es.length
   deg_le : ∀ n, deg out n ≤ deg es n
@@ -545,10 +584,13 @@ theorem stubEdgeMH_preserved (detailed : Bool) (n : Nat) (es : List Edge) (ds : 
       intro e he
       obtain ⟨e0, h0, rfl⟩ := List.mem_map.mp ((mem_dedup _ e).mp he)
       exact ⟨e0, h0, rfl⟩
-    refine ⟨dedup_nodup _, ?_, ?_, ?_, ?_, ?_, ?_, ?_, ?_⟩
+    refine ⟨dedup_nodup _, ?_, ?_, ?_, ?_, ?_, ?_, ?_, ?_, ?_⟩
     · intro e he
       obtain ⟨e0, h0, rfl⟩ := hmem e he
       exact sortNodes_nodup (nd' e0 h0)
+    · intro e he
+      obtain ⟨e0, h0, rfl⟩ := hmem e he
+      exact sortNodes_strict (nd' e0 h0)
     · intro e he
       obtain ⟨e0, h0, rfl⟩ := hmem e he
       rw [sortNodes_length, ← sz]
@@ -839,6 +881,7 @@ theorem shapes_map_sort (es : List DEdge) : shapes (es.map sortSides) = shapes e
 structure DPreserved (es out : List DEdge) : Prop where
   distinct : out.Nodup
   sidesNodup : ∀ e ∈ out, e.1.Nodup ∧ e.2.Nodup
+  sorted : ∀ e ∈ out, e.1.Pairwise (· < ·) ∧ e.2.Pairwise (· < ·)
   len_le : out.length ≤ es.length
   out_le : ∀ n, outDeg out n ≤ outDeg es n
   in_le : ∀ n, inDeg out n ≤ inDeg es n
@@ -873,15 +916,79 @@ theorem directedCM_preserved (es : List DEdge) (ds : List Nat) (out : List DEdge
           inDeg_eq_count es (fun e he => (hnd e he).2)]
         exact I.tgt.count_eq x
       have hsub := dedup_sublist (es2.map sortSides)
-      refine ⟨dedup_nodup _, ?_, ?_, ?_, ?_, ?_, ?_, ?_⟩
+      refine ⟨dedup_nodup _, ?_, ?_, ?_, ?_, ?_, ?_, ?_, ?_⟩
       · intro e he
         obtain ⟨e0, h0, rfl⟩ := List.mem_map.mp ((mem_dedup _ e).mp he)
         exact ⟨sortNodes_nodup (I.nd e0 h0).1, sortNodes_nodup (I.nd e0 h0).2⟩
+      · intro e he
+        obtain ⟨e0, h0, rfl⟩ := List.mem_map.mp ((mem_dedup _ e).mp he)
+        exact ⟨sortNodes_strict (I.nd e0 h0).1, sortNodes_strict (I.nd e0 h0).2⟩
       · rw [← hlen]; exact hsub.length_le
       · intro x; rw [← hout x]; exact hsub.countP_le
       · intro x; rw [← hin x]; exact hsub.countP_le
       · intro hl x; rw [dedup_eq_of_length _ (hl.trans hlen.symm)]; exact hout x
       · intro hl x; rw [dedup_eq_of_length _ (hl.trans hlen.symm)]; exact hin x
       · intro hl; rw [dedup_eq_of_length _ (hl.trans hlen.symm), shapes_map_sort, I.shp]
+
+/-! ## every input has returning runs (the `.ok` hypotheses are satisfiable for every input) -/
+
+theorem strip_self (t : List Nat) (h : t.Nodup) : strip (t ++ t) t = [] := by
+  induction t with
+  | nil => simp [strip]
+  | cons v t ih =>
+    have hv : v ∉ t := (List.nodup_cons.mp h).1
+    have e1 : ((v :: t) ++ (v :: t)).erase v = t ++ v :: t := by simp
+    have e2 : (t ++ v :: t).erase v = t ++ t := by
+      rw [List.erase_append_right _ hv]; simp
+    simp only [strip, e1, e2]
+    exact ih (List.nodup_cons.mp h).2
+
+theorem inter_self (f : Edge) : inter f f = f :=
+  List.filter_eq_self.mpr (fun a ha => by simpa using ha)
+
+theorem reshuffle_self (f : Edge) (ds : List Draw) (h : f.Nodup) :
+    reshuffle f f ds = .ok (sortNodes f, sortNodes f, ds) := by
+  simp [reshuffle, inter_self, strip_self f h, deal]
+
+/-- drawing the same index twice is always accepted and consumes no coin -/
+theorem mhStep_diag (detailed : Bool) (es : List Edge) (i : Nat) (f : Edge) (ds : List Draw)
+    (hi : es[i]? = some f) (h : f.Nodup) :
+    mhStep detailed es (.idx i i :: ds)
+      = .ok ((es.set i (sortNodes (sortNodes f))).set i (sortNodes (sortNodes f)), ds) := by
+  have hne : es.isEmpty = false := by
+    cases es with
+    | nil => simp at hi
+    | cons _ _ => rfl
+  simp [mhStep, proposal, hne, pick, hi, admissible, reshuffle_self f ds h]
+
+theorem chain_returns (detailed : Bool) (n : Nat) (es : List Edge) (ds : List Draw)
+    (hne : es ≠ []) (hnd : ∀ e ∈ es, e.Nodup) :
+    ∃ es', chain detailed n es (List.replicate n (.idx 0 0) ++ ds) = .ok (es', ds) := by
+  induction n generalizing es with
+  | zero => exact ⟨es, rfl⟩
+  | succ n ih =>
+    cases es with
+    | nil => exact absurd rfl hne
+    | cons f t =>
+      have hs := mhStep_diag detailed (f :: t) 0 f (List.replicate n (.idx 0 0) ++ ds) rfl
+        (hnd f List.mem_cons_self)
+      have hnd1 := (mhStep_inv _ _ _ _ _ hs hnd).1
+      obtain ⟨es', h'⟩ := ih _ (by simp) hnd1
+      refine ⟨es', ?_⟩
+      simp only [List.replicate_succ, List.cons_append, chain, hs]
+      exact h'
+
+theorem swapLoop_returns (tgt : Bool) (n : Nat) (es : List DEdge) (ds : List Nat) (hne : es ≠ []) :
+    swapLoop tgt n es (List.replicate (2 * n) 0 ++ ds) = .ok (es, ds) := by
+  induction n with
+  | zero => rfl
+  | succ n ih =>
+    cases es with
+    | nil => exact absurd rfl hne
+    | cons e t =>
+      have : 2 * (n + 1) = (2 * n + 1) + 1 := by omega
+      rw [this, List.replicate_succ, List.replicate_succ]
+      simp only [List.cons_append, swapLoop, swapStep, List.getElem?_cons_zero, if_true]
+      exact ih
 
 end C13
